@@ -633,6 +633,8 @@ func runC19(c *Ctx) {
 	// R9 (shared with C07.R16): an unknown extended request keeps the session — nobody dereferences its nil specific packet
 	checkSpecificPacketGuarded(c, "R9")
 	checkHandshakeDecodersTotal(c, "R10")
+	// R11 (shared with C02.R2): an advertised extension is served only if its reply reaches the caller — under the request's id
+	c.withOnly("R2", "R11", func() { runC02(c) })
 }
 
 // checkDecodedOnlyIfConfigured (C19.R7): "advertised ⊆ served" is R5; this is the converse.  The extended-request
@@ -919,5 +921,5 @@ func checkHandshakeDecodersTotal(c *Ctx, rule string) {
 			decideObl(c, w, z, o, rule, oblKey(o, fn, ord), lifted)
 		}
 	}
-	c.check(n >= 5, rule, "bounds obligations in the handshake's decoders", "?", fmt.Sprintf("%d obligations", n), fmt.Sprintf("only %d obligations found in the handshake's decode cone", n))
+	c.check(n >= 2, rule, "bounds obligations in the handshake's decoders", "?", fmt.Sprintf("%d obligations", n), fmt.Sprintf("only %d obligations found in the handshake's decode cone", n))
 }
